@@ -310,7 +310,7 @@ fn c17_gecko_len_2() {
 // @assume the port's column set is a typed stack object (Vec::from_raw_parts), built through the real readers and From conversions
 // @stub alloc::fmt::format = returns an empty String
 #[kani::proof]
-#[kani::unwind(10)]
+#[kani::unwind(56)]
 #[kani::stub(alloc::fmt::format, format_stub)]
 fn c01_frame_write_port_v1_0() {
 	use peppi::frame::immutable::{Data as IData, PortData as IPortData};
